@@ -77,6 +77,15 @@ def run(tier: str, seed: int) -> int:
                         path = os.path.join(tmp, f"ds{dsno}", "a.parq")
                         os.makedirs(os.path.dirname(path))
                         ddf = dd.from_pandas(df.set_geometry(active), npartitions=min(nparts, n))
+                        if dsno % 3 == 1:
+                            # history: ANOTHER dataset (other extents, other partition count) was written to and read from this very path
+                            # earlier in the process, then removed - what is recorded / reported now must be about the dataset stored now
+                            decoy, _ = frame(rng, 7)
+                            decoy["west_east"] = geom.make_array("point", [geom.El([[[[500 + i, 700 + i]]]]) for i in range(7)])
+                            dd.from_pandas(decoy.set_geometry(active), npartitions=2).to_parquet(path)
+                            _ = read_parquet_dask(path).geometry.total_bounds
+                            _ = read_parquet_dask(path, bounds=(0, 0, 1000, 1000)).npartitions
+                            shutil.rmtree(path)
                         try:
                             if writer == "to_parquet":
                                 ddf.to_parquet(path)
